@@ -1236,6 +1236,39 @@ def param_sources(c, fnq, idx):
     return out
 
 
+def dominating_conditions(anc, node):
+    """condition expressions that hold (or were tested) on every path reaching `node`: the conditions of the enclosing
+    `if`s / guarded arms, and of the early exits (`if C { return/iret/panic }`, `let .. else { exit }`) that precede it in
+    an enclosing block"""
+    out = []
+    chain = list(anc) + [node]
+    for i, a in enumerate(chain[:-1]):
+        child = chain[i + 1]
+        k = a.get("k")
+        if k == "if":
+            out.append(a["cond"])
+        elif k is None and "pat" in a and a.get("guard") is not None and child is a.get("body"):
+            out.append(a["guard"])
+        elif k == "block":
+            for st in list(a.get("stmts", [])) + ([a["tail"]] if a.get("tail") is not None else []):
+                if st is child:
+                    break
+                if st.get("k") == "if" and st.get("else") is None:
+                    last = block_last(st["then"])
+                    if isinstance(last, dict) and (last.get("k") in ("ret", "iret", "break", "continue") or (last.get("k") == "macro" and last.get("name") in ("panic", "unreachable", "todo"))):
+                        out.append(st["cond"])
+                if st.get("k") == "let" and st.get("else") is not None and st.get("init") is not None:
+                    out.append(st["init"])
+                if st.get("k") in ("match", "block"):
+                    # an early exit nested in an earlier statement (e.g. inside the one arm of a decided match)
+                    for x, xa in walk(st):
+                        if x.get("k") == "if" and x.get("else") is None and not any(y.get("k") == "closure" for y in xa):
+                            last = block_last(x["then"])
+                            if isinstance(last, dict) and last.get("k") in ("ret", "iret"):
+                                out.append(x["cond"])
+    return out
+
+
 def uses_of_let(h, let_stmt):
     """every use of a local that resolves to `let_stmt`"""
     out = []
